@@ -65,10 +65,12 @@ Record config := mkConfig {
 
 (* /repo since 5afd9f1: try/finally in DynamicRecursionCache.__call__ *)
 Definition wrapper_cleanup : bool := true.
-(* the pinned code: Model.gaussian_prior_model_for_arguments starts with self.unfreeze() *)
-Definition derive_thaws : bool := true.
-(* the pinned code: Collection.__setitem__ writes the id of the replaced value into the assigned object *)
-Definition setitem_transfers : bool := true.
+(* /repo since b8214a7: Model.gaussian_prior_model_for_arguments unfreezes its copy, not self
+   (the pinned code started with self.unfreeze(): true) *)
+Definition derive_thaws : bool := false.
+(* /repo since 6df133a: Collection.__setitem__ transfers the id only to a freshly built object, never to an
+   object handed in by the caller (the pinned code wrote it into any assigned object: true) *)
+Definition setitem_transfers : bool := false.
 
 Definition FUEL : nat := 12.
 
@@ -172,6 +174,13 @@ Definition string_of_nat (n : nat) : string := NilEmpty.string_of_uint (Nat.to_u
 
 Fixpoint has_us (s : string) : bool :=
   match s with EmptyString => false | String c r => Ascii.eqb c "_"%char || has_us r end.
+(* key.rsplit("_", 1)[0]: the part before the LAST underscore *)
+Fixpoint before_last_us (s : string) : string :=
+  match s with
+  | EmptyString => EmptyString
+  | String c r => if has_us r then String c (before_last_us r)
+                  else if Ascii.eqb c "_"%char then EmptyString else String c r
+  end.
 Fixpoint before_us (s : string) : string :=
   match s with
   | EmptyString => EmptyString
@@ -653,7 +662,7 @@ Definition frozen_pm (st : state) (v : value) : bool :=
   end.
 
 (* setattr(obj, name, v) *)
-Definition op_set (o : nat) (name : string) (v : value) : M unit :=
+Definition op_set (cfg : config) (o : nat) (name : string) (v : value) : M unit :=
   ob <- gets (fun st => get st o) ;;
   match ob with
   | None => raise EAttribute
@@ -663,7 +672,7 @@ Definition op_set (o : nat) (name : string) (v : value) : M unit :=
       | KColl =>
           if ofrozen ob then raise EAssertion
           else modify o (fun ob => with_attrs ob (set_attr name v (oattrs ob)))
-      | KModel _ =>
+      | KModel cls =>
           if ofrozen ob then raise EAssertion
           else
             (* value.label = namer(key): a frozen model refuses the `_label` assignment *)
@@ -672,8 +681,13 @@ Definition op_set (o : nat) (name : string) (v : value) : M unit :=
             else if has_us name then
               (* self.tuple_prior_tuples: uncached, the target is not frozen here *)
               tl <- gets (fun st => direct_items st DTuple (oattrs ob)) ;;
-              match filter (fun it => String.eqb (item_name it) (before_us name)) tl with
-              | it :: _ => modify (item_oid it) (fun tb => with_attrs tb (set_attr name v (oattrs tb)))
+              (* name_0, name_1 ... are members of the tuple argument "name" (prefix before the last
+                 underscore); a constructor argument always stays an attribute of the model itself *)
+              match filter (fun it => String.eqb (item_name it) (before_last_us name)) tl with
+              | it :: _ =>
+                  if smemb name (ctor_names cfg cls)
+                  then modify o (fun ob => with_attrs ob (set_attr name v (oattrs ob)))
+                  else modify (item_oid it) (fun tb => with_attrs tb (set_attr name v (oattrs tb)))
               | [] => modify o (fun ob => with_attrs ob (set_attr name v (oattrs ob)))
               end
             else modify o (fun ob => with_attrs ob (set_attr name v (oattrs ob)))
@@ -829,26 +843,24 @@ Fixpoint derive (cfg : config) (n : nat) (idf : nat -> nat) (a : list nat) (o : 
                        | VRef c => k <- gets (fun st => is_pm st c) ;; if k then derive cfg n' idf a c else ret tt
                        end) attrs ;;
           ret tt
-      | Some (KModel _, attrs) =>
+      | Some (KModel _, _) =>
           _ <- (if dthaws cfg then unfreeze FUEL o else ret tt) ;;
-          _ <- mapM (fun kv : string * value => match snd kv with VPrior p => need p | _ => ret tt end) attrs ;;
-          _ <- mapM (fun kv : string * value =>
-                       match snd kv with
-                       | VRef c =>
-                           tv <- gets (fun st => view st c) ;;
-                           match tv with
-                           | Some (KTuple, tattrs) =>
-                               _ <- mapM (fun m : string * value => match snd m with VPrior p => need p | _ => ret tt end) tattrs ;;
-                               ret tt
-                           | _ => ret tt
-                           end
-                       | _ => ret tt
-                       end) attrs ;;
-          _ <- mapM (fun kv : string * value =>
-                       match snd kv with
-                       | VRef c => k <- gets (fun st => is_pm st c) ;; if k then derive cfg n' idf a c else ret tt
-                       | _ => ret tt
-                       end) attrs ;;
+          (* the code reads self.direct_prior_tuples, tuple_prior_tuples, direct_instance_tuples and
+             direct_prior_model_tuples: frozen_cache functions (cached when `self` is still frozen) *)
+          pc <- call_direct o DPrior ;; pl <- as_list pc ;;
+          _ <- mapM (fun it : item => need (leaf_pid (snd it))) pl ;;
+          tc <- call_direct o DTuple ;; tl <- as_list tc ;;
+          _ <- mapM (fun it : item =>
+                       tv <- gets (fun st => view st (item_oid it)) ;;
+                       match tv with
+                       | Some (_, tattrs) =>
+                           _ <- mapM (fun m : string * value => match snd m with VPrior p => need p | _ => ret tt end) tattrs ;;
+                           ret tt
+                       | None => ret tt
+                       end) tl ;;
+          fc <- call_direct o DFloat ;; _ <- as_list fc ;;
+          mc <- call_direct o DPriorModel ;; ml <- as_list mc ;;
+          _ <- mapM (fun it : item => derive cfg n' idf a (item_oid it)) ml ;;
           ret tt
       end
   end.
@@ -879,7 +891,7 @@ Definition step (cfg : config) (x : op) : M answer :=
   | OQuery o q => run_query cfg o q
   | OFreeze o => unit_ans (freeze FUEL o)
   | OUnfreeze o => unit_ans (unfreeze FUEL o)
-  | OSet o name v => unit_ans (op_set o name v)
+  | OSet o name v => unit_ans (op_set cfg o name v)
   | OSetItem o key v => unit_ans (op_setitem cfg o key v)
   | ODerive o => unit_ans (op_derive cfg o)
   | OAppend o v => unit_ans (op_append o v)
